@@ -116,6 +116,9 @@ pub fn generic_type_alphabet(params: ParamForm, include_cf3: bool) -> Vec<Ty> {
             Ty::Named(G_H, vec![t.clone()]),
             Ty::Tuple(vec![t.clone(), U8]),
             Ty::BTreeMap(b(U8), b(t.clone())),
+            // the parameter under a transparent wrapper BELOW field level (not CF3): the element id is the
+            // parameter's id while its written name is `Box<T>`
+            Ty::Vec(b(Ty::Box(b(t.clone())))),
         ]);
         if include_cf3 {
             v.push(Ty::Box(b(t.clone())));
@@ -201,7 +204,8 @@ pub fn generic_defs() -> Vec<Def> {
 impl GenState {
     pub fn def(&self) -> Def {
         let params: Vec<Param> = match self.params {
-            ParamForm::One => vec![("T", false)],
+            // (not named `T`: the parameters of the helper and prelude types are, and names must not be what identifies a parameter)
+            ParamForm::One => vec![("Item", false)],
             ParamForm::Two => vec![("T", false), ("U", false)],
             ParamForm::BitsSO => vec![("S", false), ("O", false)],
             ParamForm::ConfigSkipped => vec![("T", true)],
@@ -371,6 +375,25 @@ pub fn coincidence(def: &Def, args: &[Ty], prog: &Program) -> Result<(), &'stati
         if let Ty::Box(inner) | Ty::Cow(inner) = &f.ty {
             if matches!(strip_box(inner), Ty::Param(_)) {
                 return Err("CF3: parameter directly under Box at field level");
+            }
+        }
+        // CF3 below field level (`Vec<Box<T>>`): the occurrence has the argument's id unless scale-info
+        // registers `Box<Arg>` apart from `Arg` - which it does exactly when Arg's own registration key is
+        // not Arg itself (`Vec<_>`, `VecDeque<_>`, `String`/`str`: `Box<Vec<u8>>` is keyed by `Vec<u8>`,
+        // `Vec<u8>` by `[u8]`). Then the id does not identify the parameter.
+        {
+            let mut subs = vec![];
+            strict_subterms(&f.ty, &mut subs);
+            for s in subs {
+                if let Ty::Box(inner) | Ty::Cow(inner) = &s {
+                    if let Ty::Param(i) = strip_box(inner) {
+                        if let Some(a) = args.get(*i) {
+                            if matches!(strip_box(a), Ty::Vec(_) | Ty::VecDeque(_) | Ty::Prim(Prim::Str) | Ty::CowStr | Ty::CowBytes | Ty::Cow(_)) {
+                                return Err("CF3: parameter directly under Box below field level, instantiated with a type that is registered under another identity");
+                            }
+                        }
+                    }
+                }
             }
         }
         if matches!(f.ty, Ty::Phantom(_)) {
